@@ -7,7 +7,9 @@
            one behind a `//line` directive whose file name carries a character of that class; key ids in
            ReservedIds became the field names time / level / msg / logger / caller; with lc.set the
            harness called SetLevelColors(sev, fg, bg) with concrete codes of the stated classes
-           right before the record and put the table back afterwards),
+           right before the record and put the table back afterwards; form = how it was handed to the library:
+           Entry.WriteThru with Attr values / a call Logit(ctx, sev, msg, args...) with Attr values / with alternating
+           key, value arguments at every level; env = "nocolor": is.SetNoColorMode(true) was in force),
      obs   the projection of the bytes the library wrote, made by the harness's independent
            decoders (encoding/json; logfmt tokenizer + strconv.Unquote; SGR scanner + layout
            parser) - structure, value identities and fidelity booleans, never raw bytes,
@@ -54,6 +56,12 @@ Feats(rec) ==
     \cup {"msg:" \o rec.msg[j] : j \in {x \in DOMAIN rec.msg : rec.msg[x] # "plain"}}
     \cup {"name:" \o rec.name.cls[j] : j \in {x \in DOMAIN rec.name.cls : rec.name.cls[x] # "plain"}}
     \cup {"attrs:" \o f : f \in TreeFeatures(rec.attrs)}
+    \* how the record reached the library (a call with key/value pairs is a feature of the attribute LIST), the process
+    \* environment, a blank message at severity Always
+    \cup (IF Form(rec) = "call-kv" THEN {"attrs:kv-form"} ELSE {})
+    \cup {"form:" \o Form(rec)}
+    \cup (IF Env(rec) # "default" THEN {"env:" \o Env(rec)} ELSE {})
+    \cup (IF rec.sev = AlwaysSev /\ BlankMsg(rec.msg) THEN {"shape:blank-always"} ELSE {})
 
 \* a probe adds the string-grammar verdict of the specification on the observed token form
 ProbeDiag(e) ==
